@@ -143,36 +143,36 @@ Proof.
         symmetry in Ap. destruct (pick_expire _ _ Ap) as [Ed Epos].
         destruct Jx as [Jz|[Jp Jl]]; [lia|]. nb.
         assert (Hle : exp s <= now s) by lia.
-        unfold expire, check_expired in H'. cbn [closed exp csr upd_armed] in H'. rewrite C in H'.
+        unfold expire, check_expired in H'. cbn [closed exp csr now upd_armed] in H'. rewrite C in H'.
         cbn [orb] in H'.
         assert (E0 : (exp s =? 0) = false) by (apply N.eqb_neq; lia). rewrite E0 in H'.
         assert (Lt : (now s <? exp s) = false) by (apply N.ltb_ge; lia).
         destruct (csr s) eqn:Cs; cbn [negb andb] in H'.
-        { rewrite E0, Lt in H'. cbn in H'. use_fst H'. apply close_inv. }
+        { rewrite ?E0, ?Lt in H'. cbn in H'. use_fst H'. apply close_inv. }
         destruct (g_refresh g) eqn:G.
-        -- rewrite E0, Lt in H'. cbn in H'. use_fst H'. apply close_inv.
+        -- rewrite ?E0, ?Lt in H'. cbn in H'. use_fst H'. apply close_inv.
         -- (* extend *)
            destruct (0 <? now s + d) eqn:Z.
-           ++ cbn [closed exp csr set_exp] in H'. rewrite C in H'. cbn [orb] in H'.
+           ++ cbn [closed exp csr now set_exp upd_armed] in H'. rewrite ?C in H'. cbn [orb] in H'.
               assert (E1 : (now s + d =? 0) = false) by (nb; apply N.eqb_neq; lia). rewrite E1 in H'.
               rewrite Cs in H'. cbn [negb andb] in H'.
               destruct (now s <? now s + d) eqn:L2.
-              ** inversion H'; subst. intro C'. split; intro Ax; [cbn in Ax; congruence|].
-                 unfold schedule. cbn. rewrite C. cbn. split; [reflexivity|].
+              ** inversion H'; subst. intro C'. split; intro Ax; [unfold schedule in Ax; cbn in Ax; rewrite ?C in Ax; cbn in Ax; congruence|].
+                 unfold schedule. cbn. rewrite ?C. cbn. split; [reflexivity|].
                  unfold J. cbn. right. nb. lia.
               ** use_fst H'. apply close_inv.
-           ++ cbn [closed exp csr] in H'. rewrite C, E0, Cs, Lt in H'. cbn in H'.
+           ++ cbn [closed exp csr now upd_armed] in H'. rewrite ?C, ?E0, ?Cs, ?Lt in H'. cbn in H'.
               use_fst H'. apply close_inv.
         -- use_fst H'. apply close_inv.
         -- use_fst H'. apply close_inv.
       * (* ping *)
-        inversion H'; subst. intro C'. split; intro Ax; [cbn in Ax; congruence|].
-        unfold schedule. cbn. rewrite C. cbn. split; [reflexivity|]. exact Jx.
+        inversion H'; subst. intro C'. split; intro Ax; [unfold schedule in Ax; cbn in Ax; rewrite ?C in Ax; cbn in Ax; congruence|].
+        unfold schedule. cbn. rewrite ?C. cbn. split; [reflexivity|]. exact Jx.
       * (* pong check *)
         cbn [lastSeen lastPing upd_armed] in H'. destruct (lastSeen s <? lastPing s).
         { use_fst H'. apply close_inv. }
-        inversion H'; subst. intro C'. split; intro Ax; [cbn in Ax; congruence|].
-        unfold schedule. cbn. rewrite C. cbn. split; [reflexivity|]. exact Jx.
+        inversion H'; subst. intro C'. split; intro Ax; [unfold schedule in Ax; cbn in Ax; rewrite ?C in Ax; cbn in Ax; congruence|].
+        unfold schedule. cbn. rewrite ?C. cbn. split; [reflexivity|]. exact Jx.
     + (* not authenticated: only the stale timer can be armed *)
       destruct (Iu eq_refl) as [_ [_ [_ [_ Ast]]]]. try rewrite A in Ast.
       destruct k; try contradiction. cbn [run_op auth upd_armed] in H'. rewrite Au in H'. cbn in H'.
@@ -182,20 +182,20 @@ Proof.
     destruct (auth s) eqn:Au. { intro; split; intro; [congruence|auto]. }
     destruct (Iu eq_refl) as [Z1 [Z2 [Z3 [Z4 _]]]].
     intro C'. split; intro Ax.
-    + unfold schedule in Ax. cbn in Ax. rewrite C in Ax. cbn in Ax. discriminate.
-    + unfold schedule. cbn. rewrite C. cbn. split; [reflexivity|].
+    + unfold schedule in Ax. cbn in Ax. rewrite ?C in Ax. cbn in Ax. discriminate.
+    + unfold schedule. cbn. rewrite ?C. cbn. split; [reflexivity|].
       unfold J. cbn. destruct (0 <? e) eqn:E.
       * right. nb. lia.
       * left. assumption.
   - (* subscribe *)
     destruct (auth s) eqn:Au; [|discriminate]. inversion H; subst. unfold add_sub. rewrite C.
-    intro C'. split; intro Ax; [cbn in Ax; congruence|]. cbn. apply Ia; reflexivity.
+    intro C'. split; intro Ax; [unfold schedule in Ax; cbn in Ax; rewrite ?C in Ax; cbn in Ax; congruence|]. cbn. apply Ia; reflexivity.
   - (* pong *)
     inversion H as [H']. unfold pong_cmd in H'. rewrite C in H'.
     destruct (auth s) eqn:Au; cbn [negb] in H'.
     + destruct ((lastPing s =? 0) || ponged s).
       * use_fst H'. apply close_inv.
-      * inversion H'; subst. intro C'. split; intro Ax; [cbn in Ax; congruence|]. cbn. apply Ia; reflexivity.
+      * inversion H'; subst. intro C'. split; intro Ax; [unfold schedule in Ax; cbn in Ax; rewrite ?C in Ax; cbn in Ax; congruence|]. cbn. apply Ia; reflexivity.
     + use_fst H'. apply close_inv.
   - (* refresh command *)
     inversion H as [H']. destruct (auth s) eqn:Au.
@@ -204,8 +204,8 @@ Proof.
     destruct (csr s); cbn [negb] in H'.
     + destruct (e =? 0). { inversion H'; subst. intro; split; intro; [congruence|auto]. }
       destruct (now s <? e) eqn:L.
-      * inversion H'; subst. intro C'. split; intro Ax; [cbn in Ax; congruence|].
-        unfold schedule. cbn. rewrite C. cbn. split; [reflexivity|]. unfold J. cbn. right. nb. lia.
+      * inversion H'; subst. intro C'. split; intro Ax; [unfold schedule in Ax; cbn in Ax; rewrite ?C in Ax; cbn in Ax; congruence|].
+        unfold schedule. cbn. rewrite ?C. cbn. split; [reflexivity|]. unfold J. cbn. right. nb. lia.
       * inversion H'; subst. intro; split; intro; [congruence|auto].
     + destruct (g_refresh g).
       * inversion H'; subst. intro; split; intro; [congruence|auto].
@@ -217,10 +217,10 @@ Proof.
     destruct expired. { use_fst H'. apply close_inv. }
     destruct (e =? 0) eqn:E0.
     + inversion H'; subst. intro C'. split; intro Ax; [cbn in Ax; unfold schedule in Ax; cbn in Ax; rewrite C in Ax; cbn in Ax; congruence|].
-      unfold schedule. cbn. rewrite C. cbn. split; [reflexivity|]. unfold J. cbn. left. reflexivity.
+      unfold schedule. cbn. rewrite ?C. cbn. split; [reflexivity|]. unfold J. cbn. left. reflexivity.
     + destruct (now s <? e) eqn:L.
       * inversion H'; subst. intro C'. split; intro Ax; [cbn in Ax; unfold schedule in Ax; cbn in Ax; rewrite C in Ax; cbn in Ax; congruence|].
-        unfold schedule. cbn. rewrite C. cbn. split; [reflexivity|]. unfold J. cbn. right. nb. lia.
+        unfold schedule. cbn. rewrite ?C. cbn. split; [reflexivity|]. unfold J. cbn. right. nb. lia.
       * use_fst H'. apply close_inv.
   - (* sub refresh command *)
     inversion H as [H']. destruct (auth s) eqn:Au.
@@ -230,7 +230,7 @@ Proof.
     + destruct (sb_csr b); cbn [negb] in H'.
       * destruct ((0 <? e) && (e <? now s)); inversion H'; subst.
         -- intro; split; intro; [congruence|auto].
-        -- intro C'. split; intro Ax; [cbn in Ax; congruence|]. cbn. apply Ia; reflexivity.
+        -- intro C'. split; intro Ax; [unfold schedule in Ax; cbn in Ax; rewrite ?C in Ax; cbn in Ax; congruence|]. cbn. apply Ia; reflexivity.
       * use_fst H'. apply close_inv.
     + inversion H'; subst. intro; split; intro; [congruence|auto].
 Qed.
@@ -257,7 +257,7 @@ Theorem no_starvation : forall g ls s os,
 Proof.
   intros g ls s os H. pose proof (exec_inv _ _ _ _ _ H (init_inv g)) as I.
   unfold cover_ok, snap_of. cbn. destruct (closed s) eqn:C; [reflexivity|]. cbn [orb].
-  destruct (I eq_refl) as [Iu Ia]. destruct (auth s) eqn:Au.
+  destruct (I C) as [Iu Ia]. destruct (auth s) eqn:Au.
   - destruct (Ia eq_refl) as [Ap _]. rewrite Ap.
     destruct (pick_covers s) as [A [B [D E]]]. rewrite A, B, D, E. reflexivity.
   - destruct (Iu eq_refl) as [-> [-> [-> [-> _]]]]. reflexivity.
@@ -273,4 +273,196 @@ Proof.
          [LAdvance 5; LConnect 20 true 13 10; LSrvRefresh false 0; LAdvance 10; LFire; LPong;
           LAdvance 10; LFire; LAdvance 10; LFire; LFire].
   eexists. eexists. vm_compute. repeat split; reflexivity.
+Qed.
+
+(* ---------- what each check does when it fires (for ALL states) ---------- *)
+
+Lemma fire_runs : forall g s k due,
+  closed s = false -> armed s = Some (k, due) -> due <= now s ->
+  fire g s = Some (run_op g (upd_armed s None) k).
+Proof.
+  intros g s k due C A D. unfold fire. rewrite C, A.
+  apply N.leb_le in D. rewrite D. reflexivity.
+Qed.
+
+Lemma fire_not_before : forall g s k due,
+  armed s = Some (k, due) -> now s < due -> fire g s = None.
+Proof.
+  intros g s k due A D. unfold fire. destruct (closed s); [reflexivity|]. rewrite A.
+  apply N.leb_gt in D. rewrite D. reflexivity.
+Qed.
+
+(* pong check: closes with 3012 exactly when no pong was seen after the last ping *)
+Theorem pong_check : forall g s due,
+  closed s = false -> armed s = Some (OpPong, due) -> due <= now s ->
+  (lastSeen s < lastPing s ->
+     exists s', fire g s = Some (s', [OClose 3012]) /\ closed s' = true) /\
+  (lastPing s <= lastSeen s ->
+     exists s', fire g s = Some (s', []) /\ closed s' = false /\ nPong s' = 0).
+Proof.
+  intros g s due C A D. rewrite (fire_runs g s OpPong due C A D). cbn [run_op lastSeen lastPing upd_armed].
+  split; intro H.
+  - apply N.ltb_lt in H. rewrite H. unfold close. cbn. rewrite C. eexists; split; reflexivity.
+  - apply N.ltb_ge in H. rewrite H. eexists. split; [reflexivity|]. unfold schedule. cbn. rewrite C. cbn. auto.
+Qed.
+
+(* stale check: an unauthenticated connection is closed with 3502 *)
+Theorem stale_check : forall g s due,
+  closed s = false -> armed s = Some (OpStale, due) -> due <= now s -> auth s = false ->
+  exists s', fire g s = Some (s', [OClose 3502]) /\ closed s' = true.
+Proof.
+  intros g s due C A D Au. rewrite (fire_runs g s OpStale due C A D). cbn [run_op auth upd_armed].
+  rewrite Au. cbn. unfold close. cbn. rewrite C. eexists; split; reflexivity.
+Qed.
+
+(* expiry check: past the expiry and nobody extends it => closed with 3005 *)
+Theorem expire_check : forall g s due,
+  closed s = false -> armed s = Some (OpExpire, due) -> due <= now s ->
+  0 < exp s -> exp s <= now s -> (csr s = true \/ g_refresh g = RNone) ->
+  exists s', fire g s = Some (s', [OClose 3005]) /\ closed s' = true.
+Proof.
+  intros g s due C A D E0 E1 Hr. rewrite (fire_runs g s OpExpire due C A D). cbn [run_op].
+  unfold expire, check_expired. cbn [closed exp csr now upd_armed]. rewrite C. cbn [orb].
+  assert (Z : (exp s =? 0) = false) by (apply N.eqb_neq; lia).
+  assert (L : (now s <? exp s) = false) by (apply N.ltb_ge; lia).
+  rewrite Z.
+  destruct Hr as [Hr|Hr]; rewrite Hr; cbn [negb andb];
+    try (destruct (csr s); cbn [negb andb]); rewrite ?Z, ?L; cbn;
+    unfold close; cbn; rewrite ?C; eexists; split; reflexivity.
+Qed.
+
+(* ... and the expiry check is never armed before the current expiry: a refresh moves it *)
+Theorem expire_not_early : forall g ls s os due,
+  exec g (init g) ls = Some (s, os) -> closed s = false ->
+  armed s = Some (OpExpire, due) -> 0 < exp s /\ exp s <= due.
+Proof.
+  intros g ls s os due H C A.
+  pose proof (exec_inv _ _ _ _ _ H (init_inv g)) as I. destruct (I C) as [Iu Ia].
+  destruct (auth s) eqn:Au.
+  - destruct (Ia eq_refl) as [Ap Jx]. rewrite A in Ap. symmetry in Ap.
+    destruct (pick_expire _ _ Ap) as [-> P]. destruct Jx as [Z|Jx]; [lia|exact Jx].
+  - destruct (Iu eq_refl) as [_ [_ [_ [_ St]]]]. rewrite A in St. contradiction.
+Qed.
+
+Lemma refresh_moves_deadline : forall g s e,
+  closed s = false -> csr s = true -> now s < e ->
+  let s' := fst (refresh_cmd g s e) in exp s' = e /\ nExpire s' = e + g_exp_delay g /\ closed s' = false.
+Proof.
+  intros g s e C Cs L. unfold refresh_cmd. rewrite C, Cs. cbn [negb].
+  assert (Z : (e =? 0) = false) by (apply N.eqb_neq; lia). rewrite Z.
+  pose proof L as L'. apply N.ltb_lt in L. rewrite L. cbn [fst]. unfold schedule. cbn. rewrite C. cbn.
+  repeat split; try reflexivity; try assumption. lia.
+Qed.
+
+(* subscription expiry at the presence tick: exactly the expired client-side subscriptions
+   are unsubscribed with 2501 *)
+Lemma tick_subs_spec : forall g l s,
+  closed s = false ->
+  (forall b, In b l -> sub_expired g s b = true -> sb_server b = false) ->
+  snd (tick_subs g s l) = map (fun b => OUnsub (sb_name b) 2501) (filter (sub_expired g s) l) /\
+  closed (fst (tick_subs g s l)) = false.
+Proof.
+  induction l as [|b r IH]; intros s C Hs; cbn [tick_subs filter map].
+  - auto.
+  - rewrite C. destruct (sub_expired g s b) eqn:E.
+    + rewrite (Hs b (or_introl eq_refl) E).
+      set (s1 := set_subs s (filter (fun x => negb (sb_name x =? sb_name b)) (subs s))).
+      assert (X : forall x, sub_expired g s1 x = sub_expired g s x) by reflexivity.
+      destruct (IH s1 C) as [I1 I2].
+      { intros x Hx Ex. rewrite X in Ex. apply Hs; [right; assumption|assumption]. }
+      destruct (tick_subs g s1 r) as [s2 o2]. cbn [fst snd] in *. split; [|assumption].
+      cbn [map]. rewrite I1. do 2 f_equal.
+    + apply IH; [assumption|]. intros x Hx. apply Hs. right; assumption.
+Qed.
+
+(* ---------- pong bookkeeping over runs: lastSeen < lastPing iff no pong since the last ping ---------- *)
+
+Definition K (s : st) : Prop :=
+  lastPing s <= seq s /\ lastSeen s <= seq s /\
+  (ponged s = true -> lastPing s <= lastSeen s) /\
+  (ponged s = false -> 0 < lastPing s -> lastSeen s < lastPing s).
+
+Lemma K_ext : forall s s',
+  lastPing s' = lastPing s -> lastSeen s' = lastSeen s -> ponged s' = ponged s -> seq s' = seq s -> K s -> K s'.
+Proof. intros s s' A B C D [K1 [K2 [K3 K4]]]. unfold K. rewrite A, B, C, D. auto. Qed.
+
+Lemma close_K : forall s code, K s -> K (fst (close s code)).
+Proof. intros s code H. unfold close. destruct (closed s); cbn [fst]; [assumption|]. eapply K_ext; eauto. Qed.
+
+Lemma tick_subs_K : forall g l s, K s -> K (fst (tick_subs g s l)).
+Proof.
+  induction l as [|b r IH]; intros s H; cbn [tick_subs]; [assumption|].
+  destruct (closed s); [assumption|]. destruct (sub_expired g s b).
+  - destruct (sb_server b); [apply close_K; assumption|].
+    specialize (IH (set_subs s (filter (fun x => negb (sb_name x =? sb_name b)) (subs s)))).
+    destruct (tick_subs g _ r) as [s2 o2]. cbn [fst] in *. apply IH. eapply K_ext; eauto.
+  - apply IH; assumption.
+Qed.
+
+Lemma schedule_K : forall s, K s -> K (schedule s).
+Proof. intros s H. unfold schedule. destruct (closed s); [assumption|]. eapply K_ext; eauto. Qed.
+
+Lemma step_K : forall g s l s' o, step g s l = Some (s', o) -> K s -> K s'.
+Proof.
+  intros g s l s' o H Ks. destruct l; cbn [step step_gen] in H.
+  - inversion H; subst. eapply K_ext; eauto.
+  - unfold fire in H. destruct (closed s); [discriminate|].
+    destruct (armed s) as [[k due]|]; [|discriminate]. destruct (due <=? now s); [|discriminate].
+    inversion H as [H']. clear H. assert (K0 : K (upd_armed s None)) by (eapply K_ext; eauto).
+    destruct k; cbn [run_op] in H'.
+    + destruct (negb (auth (upd_armed s None)) || unusable (upd_armed s None)); [use_fst H'; apply close_K; assumption|].
+      inversion H'; subst; assumption.
+    + destruct (unusable (upd_armed s None)).
+      * use_fst H'. apply close_K. apply schedule_K. eapply K_ext; eauto.
+      * use_fst H'. apply tick_subs_K. apply schedule_K. eapply K_ext; eauto.
+    + assert (X : forall t, K t -> K (fst (check_expired g t))).
+      { intros t Kt. unfold check_expired. destruct (closed t || (exp t =? 0)); [assumption|].
+        destruct (now t <? exp t); cbn [fst];
+          destruct (negb (csr t) && match g_refresh g with RNone => false | _ => true end); cbn [andb];
+          try apply close_K; try apply schedule_K; try (eapply K_ext; eauto); assumption. }
+      unfold expire in H'.
+      destruct (closed (upd_armed s None) || (exp (upd_armed s None) =? 0)); [inversion H'; subst; assumption|].
+      destruct (negb (csr (upd_armed s None))).
+      * destruct (g_refresh g); use_fst H'; try (apply close_K; assumption); apply X; try assumption.
+        destruct (0 <? now (upd_armed s None) + d); [eapply K_ext; eauto|assumption].
+      * use_fst H'. apply X; assumption.
+    + (* ping: a new event number, later than everything seen *)
+      inversion H'; subst. apply schedule_K. destruct K0 as [K1 [K2 [K3 K4]]].
+      unfold K. cbn in *. repeat split; try lia; try discriminate; try (intros; lia).
+    + destruct (lastSeen (upd_armed s None) <? lastPing (upd_armed s None)); [use_fst H'; apply close_K; assumption|].
+      inversion H'; subst. apply schedule_K. eapply K_ext; eauto.
+  - inversion H; subst. unfold connect. destruct (closed s || auth s); [assumption|]. apply schedule_K. eapply K_ext; eauto.
+  - destruct (auth s); [|discriminate]. inversion H; subst. unfold add_sub. destruct (closed s); [assumption|]. eapply K_ext; eauto.
+  - inversion H as [H']. unfold pong_cmd in H'. destruct (closed s); [inversion H'; subst; assumption|].
+    destruct (negb (auth s)); [use_fst H'; apply close_K; assumption|].
+    destruct (lastPing s =? 0) eqn:Z; cbn [orb] in H'; [use_fst H'; apply close_K; assumption|].
+    destruct (ponged s) eqn:P; [use_fst H'; apply close_K; assumption|].
+    inversion H'; subst. destruct Ks as [K1 [K2 [K3 K4]]]. unfold K. cbn. nb. repeat split; try lia; try discriminate; try (intros; lia).
+  - inversion H as [H']. destruct (auth s); [|use_fst H'; apply close_K; assumption].
+    unfold refresh_cmd in H'. destruct (closed s); [inversion H'; subst; assumption|].
+    destruct (negb (csr s)).
+    + destruct (g_refresh g); try (use_fst H'; apply close_K; assumption). inversion H'; subst; assumption.
+    + destruct (e =? 0); [inversion H'; subst; assumption|].
+      destruct (now s <? e); inversion H'; subst; [apply schedule_K; eapply K_ext; eauto|assumption].
+  - destruct (auth s); [|discriminate]. inversion H as [H']. unfold srv_refresh, srv_refresh_gen in H'.
+    destruct expired; [use_fst H'; apply close_K; assumption|].
+    destruct (e =? 0); [inversion H'; subst; apply schedule_K; eapply K_ext; eauto|].
+    destruct (now s <? e); [inversion H'; subst; apply schedule_K; eapply K_ext; eauto|use_fst H'; apply close_K; assumption].
+  - inversion H as [H']. destruct (auth s); [|use_fst H'; apply close_K; assumption].
+    unfold sub_refresh_cmd in H'. destruct (closed s); [inversion H'; subst; assumption|].
+    destruct (find (fun b => sb_name b =? n) (subs s)) as [b|]; [|inversion H'; subst; assumption].
+    destruct (negb (sb_csr b)); [use_fst H'; apply close_K; assumption|].
+    destruct ((0 <? e) && (e <? now s)); inversion H'; subst; [assumption|eapply K_ext; eauto].
+Qed.
+
+Theorem exec_K : forall g ls s os, exec g (init g) ls = Some (s, os) -> K s.
+Proof.
+  intros g ls. unfold exec.
+  assert (G : forall s0 s os, exec_gen srv_refresh g s0 ls = Some (s, os) -> K s0 -> K s).
+  { induction ls as [|l r IH]; intros s0 s os H K0; cbn [exec_gen] in H.
+    - inversion H; subst; assumption.
+    - destruct (step_gen srv_refresh g s0 l) as [[s1 o1]|] eqn:E; [|discriminate].
+      destruct (exec_gen srv_refresh g s1 r) as [[s2 os2]|] eqn:E2; [|discriminate].
+      inversion H; subst. eapply IH; [eassumption|]. eapply step_K; eassumption. }
+  intros s os H. eapply G; [eassumption|]. unfold K, init. cbn. repeat split; try lia; discriminate.
 Qed.
